@@ -1,5 +1,6 @@
 import L21.Proofs.Dep
 import L21.Proofs.DepComplete
+import L21.Proofs.DepReach
 /-
 C17 — Dependency orderings are complete, duplicate-free and dependencies-first.
 
@@ -45,6 +46,23 @@ theorem c17_depth (n : Nat) (items : List Nat) (hb : Bounded adj n) (hi : ∀ i 
 theorem c17_error_means_cycle (fuel : Nat) (items : List Nat) (h : order adj fuel items = .cycle) :
     HasCycle adj :=
   (cyc adj fuel).2 items [] [] h Chain.nil trivial
+
+/-- … and that cycle is one the listed items reach: exactly the hypothesis of `c17_cycle_error`.
+    Together: with a sufficient budget, an error is reported if and only if a cycle (self-loops
+    included) is reachable from the listed items. -/
+theorem c17_error_cycle_reachable (fuel : Nat) (items : List Nat) (h : order adj fuel items = .cycle) :
+    ∃ i ∈ items, ∃ x, Reach adj i x ∧ ∃ d ∈ adj x, Reach adj d x :=
+  order_cycle_reachable adj fuel items h
+
+theorem c17_error_iff (n : Nat) (items : List Nat) (hb : Bounded adj n) (hi : ∀ i ∈ items, i < n) :
+    order adj (n + 1) items = .cycle ↔ ∃ i ∈ items, ∃ x, Reach adj i x ∧ ∃ d ∈ adj x, Reach adj d x := by
+  constructor
+  · exact c17_error_cycle_reachable adj _ items
+  · intro hc
+    cases h : order adj (n + 1) items with
+    | ok out => exact absurd h (c17_cycle_error adj _ items hc out)
+    | cycle => rfl
+    | fuel => exact absurd h (c17_depth adj n items hb hi)
 
 /-- Totality on finite graphs: an ordering (with all the guarantees of `c17_sound`), or an
     error together with an actual cycle; nothing else. -/
